@@ -7,8 +7,18 @@ pub trait BinsBuildingStrategy: Sized {
     spec fn from_array_post(data: Seq<Self::Elem>, r: Result<Self, BinsBuildError>) -> bool;
     fn from_array(a: &ArrayN<Self::Elem, Ix1>) -> (r: Result<Self, BinsBuildError>)
         ensures Self::from_array_post(a@, r);
+    // `build`: the bins a fitted strategy produces (for EquiSpaced-backed strategies the postcondition is proved in the unit
+    // `equispaced`; the generic statement is, like from_array's, an ASSUMED contract of the trait)
+    spec fn build_post(&self, r: Bins<Self::Elem>) -> bool;
+    fn build(&self) -> (r: Bins<Self::Elem>)
+        ensures self.build_post(r);
 }
 pub struct GridBuilder<B: BinsBuildingStrategy> { pub bin_builders: Vec<B> }
+// the conversion of src/histogram/grid.rs used by GridBuilder::build (extracted in the unit; its meaning is declared through FromSpecImpl)
+impl<A: Ord> vstd::std_specs::convert::FromSpecImpl<Vec<Bins<A>>> for Grid<A> {
+    open spec fn obeys_from_spec() -> bool { true }
+    open spec fn from_spec(v: Vec<Bins<A>>) -> Self { Grid { projections: v } }
+}
 // A-ND (2-D): the matrix of observations; `axis_iter(Axis(1))` yields the columns (one random variable each) in index order,
 // each as a 1-D array - modelled, like every iterator chain (A-ITER), as the vector of its items
 
